@@ -24,6 +24,32 @@ class C03(Prop):
     modelled_not_verified = ("all Rust code; the St1 machines and Src.emit are hand transcriptions of "
                              "src/ops/*.rs and src/observable/*.rs, validated only on the generated cases")
 
+    # translator tie (DESIGN II.7): module -> pipeline heads built from that observer
+    tie_modules = {
+        "RxModel.GenTie.Map": ["map", "all", "min", "max", "average"],
+        "RxModel.GenTie.MapTo": ["mapto"],
+        "RxModel.GenTie.Filter": ["filter", "ignore", "all"],
+        "RxModel.GenTie.FilterMap": ["filtermap"],
+        "RxModel.GenTie.Tap": ["tap"],
+        "RxModel.GenTie.OnErrorMap": ["onerrmap"],
+        "RxModel.GenTie.OnComplete": [],
+        "RxModel.GenTie.OnError": [],
+        "RxModel.GenTie.Take": ["take", "first", "firstor", "elementat", "all"],
+        "RxModel.GenTie.TakeWhile": ["takewhile", "takewhilei"],
+        "RxModel.GenTie.Skip": ["skip", "elementat"],
+        "RxModel.GenTie.SkipWhile": ["skipwhile"],
+        "RxModel.GenTie.TakeLast": ["takelast"],
+        "RxModel.GenTie.SkipLast": ["skiplast"],
+        "RxModel.GenTie.Last": ["last", "lastor", "reduce", "sum", "count", "min", "max", "average"],
+        "RxModel.GenTie.DefaultIfEmpty": ["dflt", "firstor", "lastor", "all", "reduce", "sum", "count"],
+        "RxModel.GenTie.Scan": ["scan", "reduce", "sum", "count", "min", "max", "average"],
+        "RxModel.GenTie.Distinct": ["distinct", "distinctkey", "duc", "dukc"],
+        "RxModel.GenTie.Pairwise": ["pairwise"],
+        "RxModel.GenTie.Buffer": ["bufcount"],
+        "RxModel.GenTie.Contains": ["contains"],
+        "RxModel.GenTie.Collect": ["collect"],
+    }
+
     def cases(self, tier, seed):
         rng = random.Random(seed)
         maxlen = 3 if tier == "quick" else 4
@@ -40,6 +66,12 @@ class C03(Prop):
                 xs = [rng.choice(pg.ALPHA) for _ in range(2)]
                 tail = pg.rand_script(rng, 1, malformed=True)
                 out.append(pg.case_hot(opv, xs, term, tail=tail))
+        # wide family: parameters, script lengths and alphabets beyond the exhaustive ranges (magic numbers of an
+        # implementation — capacities, spill thresholds, batch sizes — live there); ten times as many, restricted to
+        # the operators concerned, when a tie theorem of the translator no longer checks (directed search)
+        out += pg.wide_cases(rng, variants, 3000 if tier == "quick" else 30000)
+        if self.focus:
+            out += pg.wide_cases(rng, variants, 30000, focus=set(self.focus))
         # random chains
         n = 6000 if tier == "quick" else 60000
         for _ in range(n):
